@@ -201,5 +201,157 @@ theorem hopSymbol_inv {U : List (Option σ)} {delta : Option σ → α → Optio
     simp only [List.length_append, List.length_map]
     omega
 
+/-! ### the inner `for` loop -/
+
+theorem innerFold_inv {U : List (Option σ)} {delta : Option σ → α → Option σ} {syms : List α}
+    {E : Option σ → Option σ → Prop} {fin : Option σ → Bool}
+    (hclosed : ∀ x ∈ U, ∀ a ∈ syms, delta x a ∈ U)
+    (hE : ∀ x y a, E x y → E (delta x a) (delta y a))
+    {Sn : List (Option σ)} : ∀ (todo : List α) (p : Part (Option σ)) (W : List Nat),
+    (∀ a ∈ todo, a ∈ syms) → Inv U delta syms E fin Sn todo p W →
+    Inv U delta syms E fin Sn [] (todo.foldl (hopSymbol U delta Sn) (p, W)).1
+      (todo.foldl (hopSymbol U delta Sn) (p, W)).2 ∧
+    (todo.foldl (hopSymbol U delta Sn) (p, W)).2.length + 2 * p.ids.length ≤
+      W.length + 2 * (todo.foldl (hopSymbol U delta Sn) (p, W)).1.ids.length := by
+  intro todo
+  induction todo with
+  | nil => intro p W _ inv; exact ⟨inv, by simp⟩
+  | cons a rest ih =>
+    intro p W hsub inv
+    simp only [List.foldl_cons]
+    obtain ⟨h1, h2⟩ := hopSymbol_inv hclosed hE (hsub a (by simp)) inv
+    obtain ⟨h3, h4⟩ := ih (hopSymbol U delta Sn (p, W) a).1 (hopSymbol U delta Sn (p, W) a).2
+      (fun b hb => hsub b (by simp [hb])) h1
+    have eta : ((hopSymbol U delta Sn (p, W) a).1, (hopSymbol U delta Sn (p, W) a).2)
+        = hopSymbol U delta Sn (p, W) a := rfl
+    rw [eta] at h3 h4
+    exact ⟨h3, by omega⟩
+
+/-! ### the outer `while` loop -/
+
+theorem Part.WF.ids_length_le {p : Part (Option σ)} {U : List (Option σ)} (h : p.WF U) :
+    p.ids.length ≤ U.length := by
+  have hnd : (p.ids.map fun i => (p.get i).head?).Nodup := by
+    rw [List.Nodup, List.pairwise_map]
+    refine List.Pairwise.imp_of_mem ?_ h.ids_nodup
+    intro i j hi hj hij heq
+    apply hij
+    cases hgi : p.get i with
+    | nil => exact absurd hgi (h.nonempty i hi)
+    | cons x t =>
+      rw [hgi] at heq
+      simp only [List.head?_cons] at heq
+      have hxj : x ∈ p.get j := List.mem_of_head? heq.symm
+      exact h.disjoint i hi j hj x (by rw [hgi]; simp) hxj
+  have hsub : (p.ids.map fun i => (p.get i).head?) ⊆ U.map some := by
+    intro o ho
+    obtain ⟨i, hi, rfl⟩ := List.mem_map.mp ho
+    cases hgi : p.get i with
+    | nil => exact absurd hgi (h.nonempty i hi)
+    | cons x t =>
+      simp only [List.head?_cons, List.mem_map, Option.some.injEq, exists_eq_right]
+      exact (h.cover x).mpr ⟨i, hi, by rw [hgi]; simp⟩
+  have := hnd.length_le_of_subset hsub
+  simpa using this
+
+theorem pop_inv {U : List (Option σ)} {delta : Option σ → α → Option σ} {syms : List α}
+    {E : Option σ → Option σ → Prop} {fin : Option σ → Bool}
+    {p : Part (Option σ)} {W W' : List Nat} {id : Nat}
+    (inv : Inv U delta syms E fin [] [] p W) (hid : id ∈ W)
+    (h1 : ∀ i ∈ W, i = id ∨ i ∈ W') (h2 : ∀ i ∈ W', i ∈ W) (h3 : W'.Nodup) :
+    Inv U delta syms E fin (p.get id) syms p W' where
+  wf := inv.wf
+  w_nodup := h3
+  w_ids := fun i hi => inv.w_ids i (h2 i hi)
+  coarser := inv.coarser
+  fin_ok := inv.fin_ok
+  snap := by
+    intro x y hxy
+    obtain ⟨i, hi, hx, hy⟩ := (Part.same_iff inv.wf.ids_nodup).mp hxy
+    have hidp := inv.w_ids id hid
+    constructor
+    · intro hx'
+      have := inv.wf.disjoint i hi id hidp x hx hx'
+      subst this; exact hy
+    · intro hy'
+      have := inv.wf.disjoint i hi id hidp y hy hy'
+      subst this; exact hx
+  witness := by
+    intro x y hxy a ha hns
+    rcases inv.witness x y hxy a ha hns with ⟨i, hi, hne⟩ | ⟨hb, _⟩
+    · rcases h1 i hi with h | h
+      · subst h; exact Or.inr ⟨ha, hne⟩
+      · exact Or.inl ⟨i, h, hne⟩
+    · simp at hb
+
+theorem Inv.boundary {U : List (Option σ)} {delta : Option σ → α → Option σ} {syms : List α}
+    {E : Option σ → Option σ → Prop} {fin : Option σ → Bool} {Sn : List (Option σ)}
+    {p : Part (Option σ)} {W : List Nat}
+    (inv : Inv U delta syms E fin Sn [] p W) : Inv U delta syms E fin [] [] p W where
+  wf := inv.wf
+  w_nodup := inv.w_nodup
+  w_ids := inv.w_ids
+  coarser := inv.coarser
+  fin_ok := inv.fin_ok
+  snap := by intro x y _; simp
+  witness := by
+    intro x y hxy a ha hns
+    rcases inv.witness x y hxy a ha hns with h | ⟨hb, _⟩
+    · exact Or.inl h
+    · simp at hb
+
+theorem hopLoop_succ_cons (U : List (Option σ)) (delta : Option σ → α → Option σ) (syms : List α)
+    (pick : List Nat → Nat) (fuel : Nat) (p : Part (Option σ)) (w : Nat) (ws : List Nat) :
+    hopLoop U delta syms pick (fuel + 1) p (w :: ws) =
+      hopLoop U delta syms pick fuel
+        (syms.foldl (hopSymbol U delta (p.get ((w :: ws).getD (pick (w :: ws) % (w :: ws).length) w)))
+          (p, (w :: ws).eraseIdx (pick (w :: ws) % (w :: ws).length))).1
+        (syms.foldl (hopSymbol U delta (p.get ((w :: ws).getD (pick (w :: ws) % (w :: ws).length) w)))
+          (p, (w :: ws).eraseIdx (pick (w :: ws) % (w :: ws).length))).2 := rfl
+
+/-- The loop exits with an empty waiting set within the fuel, and the invariant holds there. -/
+theorem hopLoop_inv {U : List (Option σ)} {delta : Option σ → α → Option σ} {syms : List α}
+    {E : Option σ → Option σ → Prop} {fin : Option σ → Bool}
+    (hclosed : ∀ x ∈ U, ∀ a ∈ syms, delta x a ∈ U)
+    (hE : ∀ x y a, E x y → E (delta x a) (delta y a))
+    (pick : List Nat → Nat) : ∀ (fuel : Nat) (p : Part (Option σ)) (W : List Nat),
+    Inv U delta syms E fin [] [] p W →
+    2 * U.length + W.length < fuel + 2 * p.ids.length →
+    Inv U delta syms E fin [] [] (hopLoop U delta syms pick fuel p W) [] := by
+  intro fuel
+  induction fuel with
+  | zero =>
+    intro p W inv hlt
+    have := inv.wf.ids_length_le
+    omega
+  | succ fuel ih =>
+    intro p W inv hlt
+    cases W with
+    | nil => exact inv
+    | cons w ws =>
+      rw [hopLoop_succ_cons]
+      generalize hW : w :: ws = W at *
+      have hpos : 0 < W.length := by rw [← hW]; simp
+      generalize hi : pick W % W.length = i
+      have hilt : i < W.length := by rw [← hi]; exact Nat.mod_lt _ hpos
+      have hget : W.getD i w = W[i] := by
+        rw [List.getD_eq_getElem?_getD, List.getElem?_eq_getElem hilt]; rfl
+      rw [hget]
+      have hid : W[i] ∈ W := List.getElem_mem hilt
+      have h1 : ∀ j ∈ W, j = W[i] ∨ j ∈ W.eraseIdx i := by
+        intro j hj
+        obtain ⟨k, hk, rfl⟩ := List.getElem_of_mem hj
+        by_cases hki : k = i
+        · subst hki; exact Or.inl rfl
+        · exact Or.inr (List.mem_eraseIdx_iff_getElem.mpr ⟨k, hk, hki, rfl⟩)
+      have h2 : ∀ j ∈ W.eraseIdx i, j ∈ W := fun j hj => (List.eraseIdx_sublist W i).subset hj
+      have h3 : (W.eraseIdx i).Nodup := inv.w_nodup.eraseIdx i
+      have hlen : (W.eraseIdx i).length = W.length - 1 := by
+        rw [List.length_eraseIdx, if_pos hilt]
+      obtain ⟨g1, g2⟩ := innerFold_inv hclosed hE syms p (W.eraseIdx i) (fun a ha => ha)
+        (pop_inv inv hid h1 h2 h3)
+      apply ih _ _ g1.boundary
+      omega
+
 end DFA
 end AV
